@@ -69,9 +69,16 @@ class MetaString(type):
         string_capacity = info.size - 8
         Int64._to_buffer(buffer, offset, size)
         if isinstance(value, String):
+            # the data of the source, not its size word: the space of the
+            # destination may be larger and is the one recorded above
+            ncopy = value._size - 8
             buffer.update_from_xbuffer(
-                offset, value._buffer, value._offset, value._size
+                offset + 8, value._buffer, value._offset + 8, ncopy
             )
+            if string_capacity > ncopy:
+                buffer.update_from_buffer(
+                    offset + 8 + ncopy, b"\x00" * (string_capacity - ncopy)
+                )
         elif isinstance(value, str):
             data = info.data
             off = string_capacity - len(data)
